@@ -580,3 +580,243 @@ theorem isA_eq (T : GClass) (o : GObj) (k : Sym) : IsA T o k = decide (k ∈ T.p
     by_cases h : k = x
     · simp [h, Ctl.seq, Ctl.value]
     · simpa [h] using ih
+
+/-! ## shared-initialize -/
+
+/-- the part of shared-initialize's state that matters: the instance's slots and `nameMap` -/
+def siProj (s : sharedInitialize.St) : SI := (s.obj.vars, s.nameMap)
+
+theorem setSlot_eq (T : GClass) (sd : GSlot) (v : Option Val) (o : GObj) :
+    (setSlot.body T sd v o).state = { o with vars := setSlotF sd v o.vars } := by
+  unfold setSlot.body setSlotF
+  by_cases h : sd.classStore = true <;> simp [h, Ctl.state]
+
+/-- pass 1, the slots of one supplied initarg -/
+theorem si_inner1 (k : Name) (v : Val) (body : GSlot → sharedInitialize.St → Ctl sharedInitialize.St Nat)
+    (hb : ∀ sd s, body sd s = if s.nameMap.has sd.name then Ctl.ret s 2
+      else Ctl.next { s with obj := { s.obj with vars := setSlotF sd (some v) s.obj.vars }, nameMap := s.nameMap.set sd.name k }) :
+    ∀ (sds : List GSlot) (s : sharedInitialize.St),
+      match offerStrict k v sds (siProj s) with
+      | none => ∃ s', forRange sds body s = Ctl.ret s' 2
+      | some st => ∃ s', forRange sds body s = Ctl.next s' ∧ siProj s' = st := by
+  intro sds
+  induction sds with
+  | nil => intro s; exact ⟨s, rfl, rfl⟩
+  | cons sd sds ih =>
+    intro s
+    rw [forRange_cons, hb]
+    unfold offerStrict
+    by_cases hh : s.nameMap.has sd.name = true
+    · simp only [siProj, hh, if_true]
+      exact ⟨s, rfl⟩
+    · simp only [siProj, hh, Bool.false_eq_true, if_false]
+      exact ih { s with obj := { s.obj with vars := setSlotF sd (some v) s.obj.vars }, nameMap := s.nameMap.set sd.name k }
+
+/-- pass 1 -/
+theorem si_pass1 (T : GClass) (body : Name × Val → sharedInitialize.St → Ctl sharedInitialize.St Nat)
+    (hb : ∀ kv s, match offerStrict kv.1 kv.2 ((T.initArgs.get? kv.1).getD []) (siProj s) with
+      | none => ∃ s', body kv s = Ctl.ret s' 2
+      | some st => if ((T.initArgs.get? kv.1).getD []).length == 0 then ∃ s', body kv s = Ctl.ret s' 2
+          else ∃ s', body kv s = Ctl.next s' ∧ siProj s' = st) :
+    ∀ (args : List (Name × Val)) (s : sharedInitialize.St),
+      match passArgs T args (siProj s) with
+      | none => ∃ s', forRange args body s = Ctl.ret s' 2
+      | some st => ∃ s', forRange args body s = Ctl.next s' ∧ siProj s' = st := by
+  intro args
+  induction args with
+  | nil => intro s; exact ⟨s, rfl, rfl⟩
+  | cons kv args ih =>
+    intro s
+    obtain ⟨k, v⟩ := kv
+    rw [forRange_cons]
+    unfold passArgs
+    have h := hb (k, v) s
+    simp only [] at h
+    by_cases hl : (((T.initArgs.get? k).getD []).length == 0) = true
+    · simp only [hl, if_true]
+      cases ho : offerStrict k v ((T.initArgs.get? k).getD []) (siProj s) with
+      | none =>
+        rw [ho] at h
+        obtain ⟨s', hs'⟩ := h
+        exact ⟨s', by rw [hs']⟩
+      | some st =>
+        rw [ho] at h
+        simp only [hl, if_true] at h
+        obtain ⟨s', hs'⟩ := h
+        exact ⟨s', by rw [hs']⟩
+    · simp only [hl, Bool.false_eq_true, if_false]
+      cases ho : offerStrict k v ((T.initArgs.get? k).getD []) (siProj s) with
+      | none =>
+        rw [ho] at h
+        obtain ⟨s', hs'⟩ := h
+        exact ⟨s', by rw [hs']⟩
+      | some st =>
+        rw [ho] at h
+        simp only [hl, Bool.false_eq_true, if_false] at h
+        obtain ⟨s', hs', hp⟩ := h
+        rw [hs']
+        simp only []
+        rw [← hp]
+        exact ih s'
+
+/-- pass 2, one slot definition: the default form is evaluated once, when first needed -/
+def siStep2 (k : Name) (v : Val) (s : sharedInitialize.St) (sd : GSlot) : sharedInitialize.St :=
+  if s.nameMap.has sd.name then s
+  else
+    let val := if s.evaluated then s.value else (if v == nilVal then s.value else v)
+    { obj := { s.obj with vars := setSlotF sd (some val) s.obj.vars }, nameMap := s.nameMap.set sd.name k,
+      value := val, evaluated := true }
+
+theorem si_inner2 (k : Name) (v : Val) : ∀ (sds : List GSlot) (s : sharedInitialize.St),
+    (if s.evaluated then s.value = v else s.value = nilVal) →
+    siProj (sds.foldl (siStep2 k v) s) = offer sds k v (siProj s)
+  | [], _, _ => rfl
+  | sd :: sds, s, hj => by
+    simp only [List.foldl_cons, offer]
+    have ih := si_inner2 k v sds (siStep2 k v s sd)
+    unfold offer at ih
+    by_cases hh : s.nameMap.has sd.name = true
+    · have e : siStep2 k v s sd = s := by simp [siStep2, hh]
+      have e2 : offer1 k v (siProj s) sd = siProj s := by simp [offer1, siProj, hh]
+      rw [e] at ih ⊢
+      rw [e2]
+      exact ih hj
+    · have hval : (if s.evaluated then s.value else (if v == nilVal then s.value else v)) = v := by
+        by_cases he : s.evaluated = true
+        · simp only [he, if_true] at hj ⊢; exact hj
+        · simp only [he, Bool.false_eq_true, if_false] at hj ⊢
+          by_cases hv : (v == nilVal) = true
+          · simp only [hv, if_true]; rw [hj]; exact (beq_iff_eq.1 hv).symm
+          · simp [hv]
+      have e : siProj (siStep2 k v s sd) = offer1 k v (siProj s) sd := by
+        simp only [siStep2, hh, Bool.false_eq_true, if_false, offer1, siProj, hval]
+      rw [← e]
+      apply ih
+      simp only [siStep2, hh, Bool.false_eq_true, if_false, if_true, hval]
+
+/-- pass 3, one entry of the initform table -/
+def siStep3 (s : sharedInitialize.St) (kv : Name × GSlot) : sharedInitialize.St :=
+  if s.nameMap.has kv.1 then s
+  else
+    { s with obj := { s.obj with vars := setSlotF kv.2 (some (kv.2.initform.getD nilVal)) s.obj.vars },
+             value := kv.2.initform.getD nilVal }
+
+theorem si_pass3 (T : GClass) : ∀ (l : AList GSlot) (s : sharedInitialize.St),
+    siProj (l.foldl siStep3 s) =
+      l.foldl (fun st kv => if st.2.has kv.1 then st else (setSlotF kv.2 (some (kv.2.initform.getD nilVal)) st.1, st.2)) (siProj s)
+  | [], _ => rfl
+  | kv :: l, s => by
+    simp only [List.foldl_cons]
+    rw [si_pass3 T l]
+    congr 1
+    unfold siStep3 siProj
+    by_cases hh : s.nameMap.has kv.1 = true <;> simp [hh]
+
+theorem si_pass2 (T : GClass) : ∀ (dl : List (Name × Val)) (s1 : sharedInitialize.St),
+    siProj (dl.foldl (fun s kv => ((T.initArgs.get? kv.1).getD []).foldl (siStep2 kv.1 kv.2)
+        { s with value := nilVal, evaluated := false }) s1) =
+      dl.foldl (fun st kv => offer ((T.initArgs.get? kv.1).getD []) kv.1 kv.2 st) (siProj s1)
+  | [], _ => rfl
+  | kv :: dl, s1 => by
+    simp only [List.foldl_cons]
+    rw [si_pass2 T dl]
+    congr 1
+    exact si_inner2 kv.1 kv.2 _ _ (by simp)
+
+/-- the three loops put together, for any loop bodies that behave as the pass functions say -/
+theorem si_compose (T : GClass) (argMap : AList Val) (s : sharedInitialize.St)
+    (B1 : Name × Val → sharedInitialize.St → Ctl sharedInitialize.St Nat)
+    (B2 : Name × Val → sharedInitialize.St → Ctl sharedInitialize.St Nat)
+    (B3 : Name × GSlot → sharedInitialize.St → Ctl sharedInitialize.St Nat)
+    (hb1 : ∀ kv s, ∃ I1 : GSlot → sharedInitialize.St → Ctl sharedInitialize.St Nat,
+      B1 kv s = ((if ((T.initArgs.get? kv.1).getD []).length == 0 then Ctl.ret s 2 else Ctl.next s).seq
+        fun s => forRange ((T.initArgs.get? kv.1).getD []) I1 s) ∧
+      ∀ sd s, I1 sd s = if s.nameMap.has sd.name then Ctl.ret s 2
+        else Ctl.next { s with obj := { s.obj with vars := setSlotF sd (some kv.2) s.obj.vars }, nameMap := s.nameMap.set sd.name kv.1 })
+    (hb2 : ∀ kv s, B2 kv s = Ctl.next (((T.initArgs.get? kv.1).getD []).foldl (siStep2 kv.1 kv.2)
+        { s with value := nilVal, evaluated := false }))
+    (hb3 : ∀ kv s, B3 kv s = Ctl.next (siStep3 s kv)) :
+    match passArgs T argMap (siProj s) with
+    | none => ∃ s', ((forRange argMap B1 s).seq fun s => (forRange T.defaultInitArgs B2 s).seq fun s =>
+        (forRange T.initForms B3 s).seq fun s => Ctl.ret s 0) = Ctl.ret s' 2
+    | some st1 => ∃ s', ((forRange argMap B1 s).seq fun s => (forRange T.defaultInitArgs B2 s).seq fun s =>
+        (forRange T.initForms B3 s).seq fun s => Ctl.ret s 0) = Ctl.ret s' 0 ∧
+        siProj s' = passForms T (passDefaults T st1) := by
+  have hb1' : ∀ kv s, match offerStrict kv.1 kv.2 ((T.initArgs.get? kv.1).getD []) (siProj s) with
+      | none => ∃ s', B1 kv s = Ctl.ret s' 2
+      | some st => if ((T.initArgs.get? kv.1).getD []).length == 0 then ∃ s', B1 kv s = Ctl.ret s' 2
+          else ∃ s', B1 kv s = Ctl.next s' ∧ siProj s' = st := by
+    intro kv s
+    obtain ⟨I1, hB, hI1⟩ := hb1 kv s
+    rw [hB]
+    by_cases hl : (((T.initArgs.get? kv.1).getD []).length == 0) = true
+    · have hnil : (T.initArgs.get? kv.1).getD [] = [] := by
+        cases h : (T.initArgs.get? kv.1).getD [] with
+        | nil => rfl
+        | cons a b => simp [h] at hl
+      simp only [hnil, offerStrict, List.length_nil, beq_self_eq_true, if_true, Ctl.seq]
+      exact ⟨s, rfl⟩
+    · simp only [hl, Bool.false_eq_true, if_false, Ctl.seq]
+      have hi := si_inner1 kv.1 kv.2 I1 hI1 ((T.initArgs.get? kv.1).getD []) s
+      cases ho : offerStrict kv.1 kv.2 ((T.initArgs.get? kv.1).getD []) (siProj s) with
+      | none => rw [ho] at hi; exact hi
+      | some st => rw [ho] at hi; exact hi
+  have h1 := si_pass1 T B1 hb1' argMap s
+  cases hp : passArgs T argMap (siProj s) with
+  | none =>
+    rw [hp] at h1
+    obtain ⟨s', hs'⟩ := h1
+    exact ⟨s', by rw [hs']; rfl⟩
+  | some st1 =>
+    rw [hp] at h1
+    obtain ⟨s1, hs1, hproj⟩ := h1
+    rw [hs1]
+    simp only [Ctl.seq]
+    rw [forRange_fold (fun s kv => ((T.initArgs.get? kv.1).getD []).foldl (siStep2 kv.1 kv.2)
+        { s with value := nilVal, evaluated := false }) B2 (fun kv s => Or.inl (hb2 kv s))]
+    simp only []
+    rw [forRange_fold siStep3 B3 (fun kv s => Or.inl (hb3 kv s))]
+    refine ⟨_, rfl, ?_⟩
+    rw [si_pass3 T]
+    unfold passForms passDefaults
+    congr 1
+    rw [← hproj]
+    exact si_pass2 T _ s1
+
+/-- shared-initialize in normal form: an error is signalled exactly when pass 1 fails (an initarg
+    no slot declares, or a slot reached twice); otherwise the instance's slots are those left by
+    the three passes in this order: supplied initargs, default initargs for the slots not filled,
+    the initform table for the slots still not filled. -/
+theorem sharedInitialize_normal (T : GClass) (argMap : AList Val) (s : sharedInitialize.St) :
+    match passArgs T argMap (siProj s) with
+    | none => ∃ s', sharedInitialize.body T argMap s = Ctl.ret s' 2
+    | some st1 => ∃ s', sharedInitialize.body T argMap s = Ctl.ret s' 0 ∧
+        siProj s' = passForms T (passDefaults T st1) := by
+  unfold sharedInitialize.body
+  refine si_compose T argMap s _ _ _ ?_ ?_ ?_
+  · intro kv s
+    refine ⟨_, rfl, ?_⟩
+    intro sd s
+    by_cases hh : s.nameMap.has sd.name = true
+    · simp [hh, Ctl.seq]
+    · simp [hh, Ctl.seq, setSlot_eq]
+  · intro kv s
+    rw [forRange_fold (siStep2 kv.1 kv.2)]
+    intro sd s
+    left
+    unfold siStep2
+    by_cases hh : s.nameMap.has sd.name = true
+    · simp [hh]
+    · by_cases he : s.evaluated = true
+      · simp [hh, he, Ctl.seq, setSlot_eq]
+      · by_cases hv : (kv.2 == nilVal) = true
+        · simp [hh, he, hv, Ctl.seq, setSlot_eq]
+        · simp [hh, he, hv, Ctl.seq, setSlot_eq]
+  · intro kv s
+    unfold siStep3
+    by_cases hh : s.nameMap.has kv.1 = true
+    · simp [hh]
+    · by_cases hf : (kv.2.initform == some nilVal) = true
+      · have : kv.2.initform = some nilVal := by simpa using hf
+        simp [hh, this, Ctl.seq, setSlot_eq]
+      · simp [hh, hf, Ctl.seq, setSlot_eq]
